@@ -89,8 +89,13 @@ impl PortFilter {
     /// // Matches ports 8000 through 8999
     /// ```
     pub fn destination_range(mut self, range: std::ops::Range<u16>) -> Self {
-        self.destination_ranges
-            .push((range.start, range.end.saturating_sub(1)));
+        // An empty range (e.g. `0..0`) stays a constraint that matches no port.
+        let inclusive = if range.start < range.end {
+            (range.start, range.end.saturating_sub(1))
+        } else {
+            (1, 0)
+        };
+        self.destination_ranges.push(inclusive);
         self
     }
 
@@ -105,8 +110,13 @@ impl PortFilter {
     /// // Matches ports 10000 through 19999
     /// ```
     pub fn source_range(mut self, range: std::ops::Range<u16>) -> Self {
-        self.source_ranges
-            .push((range.start, range.end.saturating_sub(1)));
+        // An empty range (e.g. `0..0`) stays a constraint that matches no port.
+        let inclusive = if range.start < range.end {
+            (range.start, range.end.saturating_sub(1))
+        } else {
+            (1, 0)
+        };
+        self.source_ranges.push(inclusive);
         self
     }
 
